@@ -1096,7 +1096,9 @@ class Grid(object):
         if align_corners:
             spacing = (self.extent() - self.spacing()) / (size - 1)
             grid._spacing = torch.where(self._size.gt(0), spacing, self._spacing)
-            assert torch.allclose(grid.origin(), self.origin())
+            # absolute tolerance relative to grid extent, because origin coordinates may be (close to) zero
+            atol = 1e-5 * float(self.extent().max())
+            assert torch.allclose(grid.origin(), self.origin(), atol=atol)
         else:
             spacing = self.extent() / size
             grid._spacing = torch.where(self._size.gt(0), spacing, self._spacing)
